@@ -158,7 +158,7 @@ CLAIMED = {
         "refreshed observation equals that of a freshly constructed object with the same command array, setting and constants (obs_eq_fresh*, inv_run*), writes clear the fitness, copies are "
         "equal and independent. Tie: operation sequences on real AGraphs (reduce and CAS) vs the model instantiated with the Lean models of reduce_stack and the CAS, state by state; oracle "
         "against fresh objects on all observations.",
-   note=COMMON_NOTE + "setConsts is legal only with the current parameter count; the never-assigned empty AGraph is outside the statement (machine-checked counterexample for arbitrary simplifiers).",
+   note=COMMON_NOTE + "Repaired defect F22 (an equation built from a string could not be copied before its first read) is listed as fixed in known_findings.json. setConsts is legal only with the current parameter count; the never-assigned empty AGraph is outside the statement (machine-checked counterexample for arbitrary simplifiers).",
    technique="Lean 4 proof (invariant + refinement to the fresh object) + state-by-state correspondence",
    design="5/C18"),
  "C20": dict(
